@@ -471,6 +471,55 @@ func genLookup(t *Tracer, m *Meta, prop, tier string, seed int64) {
 		}
 		m.class("special:all-values-equal")
 	}
+	// (2d) long single-branch runs: the step of an inner node is a 16-bit count of 4-bit
+	// words, so run lengths on both sides of 2^14, 2^15 and 2^16 words (8, 16 and 32 KiB of
+	// shared key bytes) in four structural contexts: two keys; the run below an inner node;
+	// an ordinary long step above the long one; a 12-way byte fan-out below the run
+	longRuns := []int{0x3fff, 0x4000, 0x7fff, 0x8000, 0x8001, 0xc000, 0xfffe, 0xffff}
+	nLong := 6
+	if !quick {
+		nLong = 32
+	}
+	for i := 0; i < nLong; i++ {
+		L := longRuns[(i+int(seed))%len(longRuns)]
+		if i == 0 {
+			L = 0x8000 + r.Intn(0x7000) // always one run in the upper half of the counter
+		}
+		fill := byte(r.Intn(256))
+		common := strings.Repeat(string([]byte{fill}), L/2)
+		var keys []string
+		if L%2 == 0 {
+			keys = []string{common + "\x12", common + "\x87", common + "\x87\x01"}
+		} else {
+			keys = []string{common + "\x51", common + "\x5e", common + "\x5e\xff"}
+		}
+		ctx := (i / 2) % 4
+		switch ctx {
+		case 1: // below an inner node
+			keys = append(keys, string([]byte{fill ^ 0x80})+"x", string([]byte{fill ^ 0x80})+"y")
+		case 2: // an ordinary long step (600 bytes) above, then the long run
+			pre := strings.Repeat("\x33", 600)
+			for j := range keys {
+				keys[j] = pre + "\x44" + keys[j]
+			}
+			keys = append(keys, pre+"\x22", pre+"\x22\x00")
+		case 3: // a 257-bit node below the run
+			keys = nil
+			for j := 0; j < 12; j++ {
+				keys = append(keys, strings.Repeat(string([]byte{fill}), (L+1)/2)+string([]byte{byte(9 + j*20)}))
+			}
+		}
+		sort.Strings(keys)
+		keys = uniq(keys)
+		enc := pickEnc(r, prop)
+		o4 := pickOpts(r, prop, 1)[0]
+		if i%3 != 2 && prop != "C03" {
+			o4[1], o4[3] = 0, 0 // mostly without InnerPrefix: the step array is what is exercised
+		}
+		c := &TrieCase{Keys: keys, Enc: enc, Vals: mkVals(r, prop, enc, len(keys)), Opt4: o4}
+		runLookupCase(t, m, r, c, lookupOpts{qlimit: 16, table: true, loaded: true, keysObs: true, mcheck: prop == "C05"})
+		m.class(fmt.Sprintf("longrun:ctx%d:%s", ctx, runClass(L)))
+	}
 	// (3) degenerate: empty and single-key tries in every option combination
 	for _, o4 := range all16 {
 		for _, keys := range [][]string{{}, {""}, {"a"}, {"\x00\xff\x80"}} {
